@@ -85,6 +85,10 @@ pub struct Cfg {
     pub record_costs: bool,
     /// re-derive successors of re-discovered states and compare (merge soundness)
     pub merge_check: bool,
+    /// large queues: operations are addressed at structural target positions (root, its children,
+    /// the last slots, both ends of every level, quartiles, first/middle/last map slot) instead of
+    /// at every item, and position-quadratic families are restricted to those targets
+    pub large: bool,
 }
 
 impl Cfg {
@@ -322,7 +326,7 @@ pub fn gen_ops(cfg: &Cfg, double: bool, m: &Model, back_offered: bool, out: &mut
                 let mut w = vec![None; n];
                 w[j] = Some(p);
                 out.push(Op::IterMutForEach { writes: w });
-                out.push(Op::IterMutFind { stop_at: j as u8, prio: p });
+                out.push(Op::IterMutFind { stop_at: j as u32, prio: p });
             }
         }
         if n >= 2 {
@@ -518,7 +522,7 @@ pub fn gen_ops(cfg: &Cfg, double: bool, m: &Model, back_offered: bool, out: &mut
         for &end in &endings {
             for f in 0..=(n + 1) {
                 for b in 0..=(n + 1 - f) {
-                    out.push(Op::Drain { front: f as u8, back: b as u8, end });
+                    out.push(Op::Drain { front: f as u32, back: b as u32, end });
                 }
             }
         }
@@ -551,6 +555,307 @@ pub fn gen_ops(cfg: &Cfg, double: bool, m: &Model, back_offered: bool, out: &mut
     }
     if a & A_CONVERT != 0 {
         out.push(Op::Convert);
+    }
+}
+
+/// Structural target positions of a heap of n elements.
+pub fn target_positions(n: usize) -> Vec<usize> {
+    if n == 0 {
+        return vec![];
+    }
+    let mut t: Vec<usize> = vec![0, 1, 2, n - 1, n.saturating_sub(2), n.saturating_sub(3), n / 2, (n / 2).saturating_sub(1), n / 4, (3 * n) / 4];
+    let mut l = 0;
+    while (1usize << l) - 1 < n {
+        t.push((1usize << l) - 1);
+        t.push(((1usize << (l + 1)) - 2).min(n - 1));
+        // parent of the last node and its sibling subtree on every level
+        l += 1;
+    }
+    // the path from the last node to the root (the one a pop refills along)
+    let mut i = n - 1;
+    while i > 0 {
+        i = (i - 1) / 2;
+        t.push(i);
+    }
+    t.retain(|&x| x < n);
+    t.sort();
+    t.dedup();
+    t
+}
+
+/// The alphabet for LARGE queues (`cfg.large`): the same operations as `gen_ops`, addressed at the
+/// items sitting at the structural target positions of the heap right now (and at the first,
+/// middle and last map slot, and one absent item), with every priority of `cfg.prios`.
+pub fn gen_ops_large(cfg: &Cfg, double: bool, m: &Model, snap: &Snap, back_offered: bool, out: &mut Vec<Op>) {
+    let a = cfg.alphabet;
+    let n = m.len();
+    let present: Vec<u32> = m.keys().copied().collect();
+    let mut tkeys: Vec<u32> = vec![];
+    let mut tslots: Vec<usize> = vec![];
+    if n > 0 && snap.heap.len() == n && snap.slots.len() == n {
+        for t in target_positions(n) {
+            let slot = snap.heap[t];
+            if slot < n {
+                tkeys.push(snap.slots[slot].0);
+                tslots.push(slot);
+            }
+        }
+        for slot in [0, n / 2, n - 1] {
+            tkeys.push(snap.slots[slot].0);
+            tslots.push(slot);
+        }
+    }
+    let absent = cfg.k - 1;
+    let mut keys = tkeys.clone();
+    keys.push(absent);
+    let mut seen = HashSet::new();
+    keys.retain(|k| seen.insert(*k));
+    tslots.sort();
+    tslots.dedup();
+    let borrowed: &[bool] = if a & A_BORROWED != 0 { &[false, true] } else { &[false] };
+    for &k in &keys {
+        for &p in &cfg.prios {
+            if a & A_PUSH != 0 {
+                out.push(Op::Push(k, 0, p));
+            }
+            if a & A_PUSH_INCDEC != 0 {
+                out.push(Op::PushInc(k, 0, p));
+                out.push(Op::PushDec(k, 0, p));
+            }
+            for &b in borrowed {
+                if a & A_CHANGE != 0 {
+                    out.push(Op::Change(k, p, b));
+                }
+                if a & A_CHANGE_BY != 0 {
+                    out.push(Op::ChangeBy(k, p, b));
+                }
+            }
+        }
+        for &b in borrowed {
+            if a & A_REMOVE != 0 {
+                out.push(Op::Remove(k, b));
+            }
+        }
+    }
+    let ends: &[bool] = if double { &[true, false] } else { &[true] };
+    if a & A_POP != 0 {
+        out.push(Op::PopHi);
+        if double {
+            out.push(Op::PopLo);
+        }
+    }
+    if a & A_PEEK_MUT != 0 {
+        for &hi in ends {
+            out.push(Op::PeekMut { hi, payload: 0 });
+        }
+    }
+    if a & A_POP_IF != 0 {
+        for &hi in ends {
+            for ret in [true, false] {
+                out.push(Op::PopIf { hi, ret, write: None });
+                for &p in &cfg.prios {
+                    out.push(Op::PopIf { hi, ret, write: Some(p) });
+                }
+            }
+        }
+    }
+    // keep-masks: none, all, each target alone, all but each target, evens, odds, halves, quarters
+    let mut masks: Vec<Vec<u32>> = vec![vec![], present.clone()];
+    for &k in &tkeys {
+        masks.push(vec![k]);
+        masks.push(present.iter().copied().filter(|&x| x != k).collect());
+    }
+    masks.push(present.iter().copied().step_by(2).collect());
+    masks.push(present.iter().copied().skip(1).step_by(2).collect());
+    masks.push(present[n / 2..].to_vec());
+    masks.push(present[..n / 2].to_vec());
+    masks.push(present[..n / 4].to_vec());
+    masks.push(present[n - n / 4..].to_vec());
+    // the elements of the upper levels / of the last level of the heap
+    if snap.heap.len() == n && n > 0 {
+        let upper: Vec<u32> = snap.heap[..n / 2].iter().filter(|&&s| s < snap.slots.len()).map(|&s| snap.slots[s].0).collect();
+        let lower: Vec<u32> = snap.heap[n / 2..].iter().filter(|&&s| s < snap.slots.len()).map(|&s| snap.slots[s].0).collect();
+        masks.push(upper);
+        masks.push(lower);
+    }
+    masks.sort();
+    masks.dedup();
+    let lo = *cfg.prios.iter().min().unwrap();
+    let hi = *cfg.prios.iter().max().unwrap();
+    let mirror = |k: u32| -> i32 { (lo as i64 + hi as i64 - m[&k].1 as i64) as i32 };
+    if a & A_RETAIN != 0 {
+        for d in &masks {
+            out.push(Op::Retain(d.clone()));
+        }
+    }
+    if a & A_RETAIN_MUT != 0 {
+        let rewrites: Vec<Vec<(u32, i32)>> = vec![vec![], present.iter().map(|&k| (k, mirror(k))).collect(), present.iter().map(|&k| (k, if k % 2 == 0 { lo } else { hi })).collect()];
+        for d in &masks {
+            for rw in &rewrites {
+                out.push(Op::RetainMut(d.clone(), rw.clone()));
+            }
+        }
+    }
+    if a & A_ITER_MUT != 0 && n > 0 {
+        out.push(Op::IterMutForEach { writes: vec![] });
+        for &p in &[lo, hi] {
+            out.push(Op::IterMutForEach { writes: vec![Some(p); n] });
+        }
+        out.push(Op::IterMutForEach { writes: (0..n).map(|i| Some(if i % 2 == 0 { hi } else { lo })).collect() });
+        out.push(Op::IterMutForEach { writes: snap.slots.iter().map(|s| Some(mirror(s.0))).collect() });
+        for &j in &tslots {
+            for &p in &cfg.prios {
+                let mut w = vec![None; j + 1];
+                w[j] = Some(p);
+                out.push(Op::IterMutForEach { writes: w });
+                out.push(Op::IterMutFind { stop_at: j as u32, prio: p });
+            }
+        }
+        let mut dirs: Vec<bool> = vec![false];
+        if a & A_ITER_MUT_BACK != 0 && back_offered {
+            dirs.push(true);
+        }
+        let mut endings = vec![End::Drop];
+        if a & A_ITER_MUT_FORGET != 0 {
+            endings.push(End::Forget);
+        }
+        for &end in &endings {
+            for via_ref in [false, true] {
+                for j in [0, 1, n, n + 1] {
+                    out.push(Op::IterMut { steps: vec![ImStep { back: false, prio: None, payload: None }; j], end, via_ref });
+                }
+                if via_ref {
+                    continue;
+                }
+                for &back in &dirs {
+                    for &j in &tslots {
+                        // the element in map slot j is the j-th from the front, the (n-1-j)-th from the back
+                        let skip = if back { n - 1 - j } else { j };
+                        for &p in &cfg.prios {
+                            let mut steps = vec![ImStep { back, prio: None, payload: None }; skip];
+                            steps.push(ImStep { back, prio: Some(p), payload: None });
+                            out.push(Op::IterMut { steps, end, via_ref });
+                        }
+                    }
+                }
+                // two writes at every pair of target slots
+                for (x, &i) in tslots.iter().enumerate() {
+                    for &j in &tslots[x + 1..] {
+                        for (p1, p2) in [(lo, lo), (lo, hi), (hi, lo), (hi, hi)] {
+                            let mut steps = vec![ImStep { back: false, prio: None, payload: None }; j + 1];
+                            steps[i].prio = Some(p1);
+                            steps[j].prio = Some(p2);
+                            out.push(Op::IterMut { steps, end, via_ref });
+                        }
+                    }
+                }
+                if dirs.len() > 1 && n >= 2 {
+                    for &p in &[lo, hi] {
+                        let mut steps: Vec<ImStep> = (0..n).map(|i| ImStep { back: i % 2 == 1, prio: None, payload: None }).collect();
+                        steps.last_mut().unwrap().prio = Some(p);
+                        steps.push(ImStep { back: false, prio: None, payload: None });
+                        steps.push(ImStep { back: true, prio: None, payload: None });
+                        out.push(Op::IterMut { steps, end, via_ref });
+                    }
+                }
+            }
+        }
+    }
+    if a & A_EXTEND != 0 {
+        let mut seqs: Vec<Vec<Pair>> = vec![vec![]];
+        for &k in keys.iter().take(6).chain([absent].iter()) {
+            for p in [lo, hi] {
+                seqs.push(vec![(k, 100, p)]);
+            }
+            seqs.push(vec![(k, 100, hi), (k, 101, lo)]);
+        }
+        seqs.push(present.iter().map(|&k| (k, 100, mirror(k))).collect());
+        let mut s2: Vec<Pair> = present.iter().map(|&k| (k, 100, if k % 2 == 0 { hi } else { lo })).collect();
+        s2.push((absent, 100, hi));
+        seqs.push(s2);
+        // many new items (more than the receiver holds), interleaved with rewrites of stored ones
+        let mut s3: Vec<Pair> = vec![];
+        for i in 0..(n as u32 + 3) {
+            s3.push((absent + i, 100, cfg.prios[i as usize % cfg.prios.len()]));
+            if let Some(&k) = present.get(i as usize) {
+                if i % 3 == 0 {
+                    s3.push((k, 100, mirror(k)));
+                }
+            }
+        }
+        seqs.push(s3);
+        seqs.sort();
+        seqs.dedup();
+        for s in seqs {
+            let l = s.len();
+            out.push(Op::Extend(s.clone(), Hint { lo: l, hi: Some(l) }));
+            // an upper bound far enough above to choose the rebuild strategy on any receiver >= 8
+            out.push(Op::Extend(s.clone(), Hint { lo: 0, hi: Some(l.max(4 * n + 17)) }));
+            out.push(Op::Extend(s, Hint { lo: 0, hi: None }));
+        }
+    }
+    if a & A_APPEND != 0 {
+        out.push(Op::Append(vec![]));
+        for &k in keys.iter().take(6).chain([absent].iter()) {
+            for p in [lo, hi] {
+                out.push(Op::Append(vec![(k, 0, p)]));
+                if k != absent {
+                    out.push(Op::Append(vec![(k, 0, p), (absent, 0, hi)]));
+                    out.push(Op::Append(vec![(absent, 0, lo), (k, 0, p)]));
+                }
+            }
+        }
+        for p in [lo, hi] {
+            // longer and clashing with every stored item (the two stores are swapped)
+            let mut big: Vec<Pair> = present.iter().map(|&k| (k, 0, p)).collect();
+            big.push((absent, 0, p));
+            big.push((absent + 1, 0, lo));
+            big.push((absent + 2, 0, hi));
+            out.push(Op::Append(big));
+        }
+        // half as long / equally long / one longer, disjoint
+        for len in [(n as u32 / 2).max(1), n as u32, n as u32 + 1] {
+            out.push(Op::Append((0..len).map(|i| (absent + 1 + i, 0, cfg.prios[i as usize % cfg.prios.len()])).collect()));
+        }
+        // half as long, clashing with every other stored item
+        out.push(Op::Append(present.iter().step_by(2).map(|&k| (k, 0, mirror(k))).collect()));
+    }
+    if a & A_CLEAR_DRAIN != 0 {
+        out.push(Op::Clear);
+        let mut endings = vec![End::Drop];
+        if a & A_DRAIN_FORGET != 0 {
+            endings.push(End::Forget);
+        }
+        let n32 = n as u32;
+        for &end in &endings {
+            for (f, b) in [(0, 0), (1, 0), (0, 1), (1, 1), (n32, 0), (0, n32), (n32 / 2, n32 - n32 / 2), (n32 / 2, n32 / 2 + 2), (n32 + 1, 0), (0, n32 + 1), (2, 3)] {
+                out.push(Op::Drain { front: f, back: b, end });
+            }
+        }
+    }
+    if a & A_CLONE != 0 {
+        out.push(Op::CloneSwap);
+    }
+    if a & A_CAPACITY != 0 {
+        for &x in &[0usize, 1, 5, 1000] {
+            out.push(Op::Reserve(x));
+            out.push(Op::ReserveExact(x));
+            out.push(Op::TryReserve(x));
+            out.push(Op::TryReserveExact(x));
+        }
+        out.push(Op::ShrinkToFit);
+    }
+    if a & A_CONVERT != 0 {
+        out.push(Op::Convert);
+    }
+}
+
+/// `gen_ops`, or its large-queue variant when `cfg.large` and the tables are available.
+pub fn gen_ops_for(cfg: &Cfg, double: bool, m: &Model, snap: &Snap, back_offered: bool, out: &mut Vec<Op>) {
+    if cfg.large {
+        gen_ops_large(cfg, double, m, snap, back_offered, out)
+    } else {
+        gen_ops(cfg, double, m, back_offered, out)
     }
 }
 
@@ -917,7 +1222,7 @@ impl<'a, H: HB> Explorer<'a, H> {
             let m = model_of(&snap);
             let mut ops = vec![];
             let back = with_q!(q, x => iter_mut_offers_back(x));
-            gen_ops(cfg, q.double(), &m, back, &mut ops);
+            gen_ops_for(cfg, q.double(), &m, &snap, back, &mut ops);
             let mut fp = 0u64;
             for op in &ops {
                 if let Ok(ap) = apply(q, unordered, &m, op, &universe) {
@@ -1009,7 +1314,7 @@ impl<'a, H: HB> Explorer<'a, H> {
                             }
                             ops.clear();
                             let back = with_q!(&node.q, x => iter_mut_offers_back(x));
-                            gen_ops(cfg, double, &m, back, &mut ops);
+                            gen_ops_for(cfg, double, &m, &snap, back, &mut ops);
                             for op in &ops {
                                 crate::crash::set_case(|| self.case(node, Some(op), None, String::new()));
                                 match apply(&node.q, node.unordered, &m, op, &universe) {
